@@ -268,6 +268,15 @@ def gen_axis(rng, name):
         a["scaled_unit"] = su
     if rng.random() < 0.3:
         a["offset"] = rng.choice(NUMS + [None])
+    # non-finite values at a healthy rate: unbounded axes are valid metadata; NaN is allowed where no
+    # invariant speaks about the field (scale, offset) — never in min/max (that is C07's known finding)
+    r = rng.random()
+    if r < 0.12:
+        a["min"], a["max"] = rng.choice([(-INF, INF), (-INF, 5), (0.5, INF), (-INF, -INF), (INF, INF)])
+    elif r < 0.2:
+        a["scale"] = rng.choice([INF, -INF, NAN])
+    elif r < 0.28:
+        a["offset"] = rng.choice([INF, -INF, NAN])
     return a
 
 
